@@ -43,21 +43,20 @@ EXPLANATION = ("lifted real codecs on symbolic text; C helpers replaced by valid
 
 # ---- ports of the C helpers -----------------------------------------------------------------
 
+_B64CHAR = [(0, 25, 1, 65), (26, 51, 1, 71), (52, 61, 1, -4), (62, 62, 0, 43), (63, 63, 0, 47)]
+_B64VAL = [(65, 90, 1, -65), (97, 122, 1, -71), (48, 57, 1, 4), (43, 43, 0, 62), (47, 47, 0, 63)]
+_MB64OK = [(65, 90, 0, 1), (97, 122, 0, 1), (48, 57, 0, 1), (43, 44, 0, 1)]
+_HEXUOK = [(48, 57, 0, 1), (65, 70, 0, 1)]
+
+
 def _b64char(v):
-    """ASCII code of base64 digit v (0..63), arithmetic only"""
-    return v + 65 + 6 * ((v + 38) // 64) - 75 * ((v + 12) // 64) - 15 * ((v + 2) // 64) + 3 * ((v + 1) // 64)
+    """ASCII code of base64 digit v (0..63)"""
+    return lbytes.pw_map(v, _B64CHAR, (0, 0))
 
 
 def _b64val(o):
-    """value of base64 character code o (must be a base64 digit, o < 128), arithmetic only"""
-    return o + 19 - 3 * ((o + 81) // 128) - 12 * ((o + 80) // 128) - 69 * ((o + 63) // 128) - 6 * ((o + 31) // 128)
-
-
-def _is_b64(o):
-    """1 when o (0..255) is the code of a base64 digit, else 0 - arithmetic only"""
-    def ge(k):
-        return (o + 256 - k) // 256
-    return (ge(43) - ge(44)) + (ge(47) - ge(58)) + (ge(65) - ge(91)) + (ge(97) - ge(123))
+    """value of the base64 digit with character code o, -1 when o is not a base64 digit"""
+    return lbytes.pw_map(o, _B64VAL, (0, -1))
 
 
 def _utf16be_units(text):
@@ -195,8 +194,9 @@ def _utf7_decode(data, errors="strict"):
         ch = data[i]
         o = ord(ch)
         if inshift:
-            if _is_b64(o) == 1:
-                buf = buf * 64 + _b64val(o)
+            v = _b64val(o)
+            if v >= 0:
+                buf = buf * 64 + v
                 bits += 6
                 i += 1
                 if bits >= 16:
@@ -232,7 +232,7 @@ def _utf7_decode(data, errors="strict"):
             if i < n and data[i] == "-":
                 i += 1
                 out.append("+")
-            elif i < n and _is_b64(ord(data[i])) != 1:
+            elif i < n and _b64val(ord(data[i])) < 0:
                 raise _u7err(start, i + 1, "ill-formed sequence")
             else:
                 inshift = True
@@ -298,7 +298,7 @@ def _xtext_form(enc):
         if c == "+":
             if i + 2 >= n:
                 return False
-            if not (lbytes._char_in(enc[i + 1], _HEXU) and lbytes._char_in(enc[i + 2], _HEXU)):
+            if lbytes.pw_map(ord(enc[i + 1]), _HEXUOK, (0, 0)) + lbytes.pw_map(ord(enc[i + 2]), _HEXUOK, (0, 0)) != 2:
                 return False
             i += 3
         else:
@@ -352,7 +352,7 @@ def _mutf7_form(enc):
             return False
         k = j
         while k < n and enc[k] != "-":
-            if not lbytes._char_in(enc[k], _MB64):
+            if lbytes.pw_map(ord(enc[k]), _MB64OK, (0, 0)) != 1:
                 return False
             k += 1
         if k >= n or k == j:
@@ -431,9 +431,16 @@ def selftest():
         assert chr(_b64char(v)) == _B64[v], v
         assert _b64val(ord(_B64[v])) == v, v
         n += 2
-    for o in range(256):
-        assert _is_b64(o) == (1 if chr(o) in _B64 else 0), o
-        n += 1
+    import z3
+    zv = z3.Int("v")
+    zc, zo = lbytes.pw_z3(zv, _B64CHAR, (0, 0)), lbytes.pw_z3(zv, _B64VAL, (0, -1))
+    for o in range(-2, 300):
+        want = _B64.index(chr(o)) if 0 <= o < 256 and chr(o) in _B64 else -1
+        assert _b64val(o) == want, o
+        assert z3.simplify(z3.substitute(zo, (zv, z3.IntVal(o)))).as_long() == want, o
+        if 0 <= o < 64:
+            assert z3.simplify(z3.substitute(zc, (zv, z3.IntVal(o)))).as_long() == ord(_B64[o]), o
+        n += 2
     # utf-16-be, b2a_base64 and the utf-7 codec on every code point < 0x300 and a BMP/astral sample
     cps = list(range(0x300)) + list(range(0x300, 0xD800, 0x3B)) + [0xD7FF, 0xE000, 0xFFFD, 0xFFFE, 0xFFFF] + \
         list(range(0xE000, 0x10000, 0x1F3)) + [0x10000, 0x10001, 0x103FF, 0x10400, 0x1F600, 0xFFFFF, 0x100000,
